@@ -19,6 +19,21 @@ def gen(ctx):
     for parts in ([b"150 ok\r", b"\n226 done\r\n"], [b"150 ok\r", b"\n", b"226 done\r\n"], [b"150 ok\r\n226 done\r", b"\n"],
                   [b"220-a\r", b"\n220 b\r", b"\n230 c\r\n"], [b"150 ok\r\n", b"226 done\r\n"], [b"1", b"5", b"0", b" ", b"\r", b"\n"]):
         yield "recvwf %d eof %s" % (4, hexlist(parts))
+    # directed: middle lines that begin with the reply's own code but are not closing lines (the code alone, the code followed by
+    # TAB / VT / FF / another character / '-'), alone and combined, both terminators, whole and cut everywhere
+    for code in (150, 226, 211):
+        c = b"%03d" % code
+        mids_all = [c, c + b"\t", c + b"\tx", c + b"\x0b", c + b"\x0c", c + b"-", c + b"x", b" " + c + b" x", c[:2], c + c + b" "]
+        for term in (b"\r\n", b"\n"):
+            for m in mids_all:
+                s = enc_reply(code, [b"a", m, b"z"], [term] * 3) + enc_reply(200, [b"next"], [term])
+                yield "recvwf 3 eof %s" % hexlist([s])
+                for i in range(1, len(s)):
+                    yield "recvwf 3 eof %s" % hexlist([s[:i], s[i:]])
+            s = enc_reply(code, [b"a"] + mids_all + [b"z"], [term] * (len(mids_all) + 2)) + enc_reply(200, [b"next"], [term])
+            yield "recvwf 3 eof %s" % hexlist([s])
+            yield "recvwf 3 eof %s" % hexlist([s[i:i + 1] for i in range(len(s))])
+    ctx["scopes"].append("multi-line replies whose middle lines begin with the reply's own code without being closing lines (code alone, code + TAB / VT / FF / CR / '-' / letter), whole and with every single cut")
     n = 4000 if tier == "quick" else 150000
     for i in range(n):
         k = rng.range(1, 5)
